@@ -5,44 +5,44 @@ From PS Require Import Spec.Primes Spec.Cursor Model.Iterator Model.PrimeGen Mod
 Import ListNotations.
 Local Open Scope N_scope.
 
-Theorem erat_model_erat_spec l1 maxKB : 16 <= maxKB -> maxKB <= 8192 -> erat_spec (erat_model l1 maxKB).
-Proof. intros K1 K2 s e H1 H2 H3 _. apply erat_model_spec; [exact K1|exact K2|lia|exact H2|exact H3]. Qed.
+Theorem erat_self_erat_spec l1 maxKB : 16 <= maxKB -> maxKB <= 8192 -> erat_spec (erat_self l1 maxKB).
+Proof. intros K1 K2 s e H1 H2 H3 _. apply erat_self_spec; [exact K1|exact K2|lia|exact H2|exact H3]. Qed.
 
 (** PrimeGenerator over the model kernel generates exactly the primes of [start, stop] *)
 Theorem pg_model_spec l1 maxKB : 16 <= maxKB -> maxKB <= 8192 ->
-  forall a b, a <= b -> b <= MAX64 -> pg_primes (erat_model l1 maxKB) a b = primes_between a b.
-Proof. intros K1 K2. apply pg_primes_spec. apply erat_model_erat_spec; assumption. Qed.
+  forall a b, a <= b -> b <= MAX64 -> pg_primes (erat_self l1 maxKB) a b = primes_between a b.
+Proof. intros K1 K2. apply pg_primes_spec. apply erat_self_erat_spec; assumption. Qed.
 
 (** forward / backward iteration over the complete model (iterator + PrimeGenerator + model kernel): no kernel
     hypothesis left *)
 Theorem next_calls_model l1 maxKB nextDist prevDist maxGap cut : 16 <= maxKB -> maxKB <= 8192 -> cut_spec cut ->
   forall fuel s h k it' rs,
     s <= MAX64 ->
-    run nextDist prevDist maxGap (pg_primes (erat_model l1 maxKB)) cut fuel (fresh_iter s h) (repeat Next k) = Done (it', rs) ->
+    run nextDist prevDist maxGap (pg_primes (erat_self l1 maxKB)) cut fuel (fresh_iter s h) (repeat Next k) = Done (it', rs) ->
     let P := primes_between s MAX64 in
     rs = map Val (firstn k P) ++ repeat Err (k - length P).
-Proof. intros K1 K2 HC. apply next_calls_spec_pg; [apply erat_model_erat_spec; assumption|exact HC]. Qed.
+Proof. intros K1 K2 HC. apply next_calls_spec_pg; [apply erat_self_erat_spec; assumption|exact HC]. Qed.
 
 Theorem prev_calls_model l1 maxKB nextDist prevDist maxGap cut : 16 <= maxKB -> maxKB <= 8192 -> cut_spec cut ->
   forall fuel s h k it' rs,
     s <= MAX64 ->
-    run nextDist prevDist maxGap (pg_primes (erat_model l1 maxKB)) cut fuel (fresh_iter s h) (repeat Prev k) = Done (it', rs) ->
+    run nextDist prevDist maxGap (pg_primes (erat_self l1 maxKB)) cut fuel (fresh_iter s h) (repeat Prev k) = Done (it', rs) ->
     let P := rev (primes_between 0 s) in
     rs = map Val (firstn k P) ++ repeat (Val 0) (k - length P).
-Proof. intros K1 K2 HC. apply prev_calls_spec_pg; [apply erat_model_erat_spec; assumption|exact HC]. Qed.
+Proof. intros K1 K2 HC. apply prev_calls_spec_pg; [apply erat_self_erat_spec; assumption|exact HC]. Qed.
 
 (** PrimeSieve::sieve / count_primes over the model kernel: 2, 3, 5 from the small table, the rest from the kernel on
     [max(start, 7), stop]; the count is exactly pi(stop) - pi(start - 1) *)
 Definition sieve_model (l1 maxKB start stop : N) : list N :=
   filter (fun p => (start <=? p) && (p <=? stop)) [2; 3; 5] ++
-  (if N.max start 7 <=? stop then erat_model l1 maxKB (N.max start 7) stop else []).
+  (if N.max start 7 <=? stop then erat_self l1 maxKB (N.max start 7) stop else []).
 
 Theorem sieve_model_spec l1 maxKB : 16 <= maxKB -> maxKB <= 8192 ->
   forall start stop, stop <= MAX64 -> sieve_model l1 maxKB start stop = primes_between start stop.
 Proof.
   intros K1 K2 start stop Hs. unfold sieve_model. rewrite (Proofs.CountAddP.small_primes_split start stop). f_equal.
   destruct (N.leb_spec (N.max start 7) stop) as [Hle|Hgt].
-  - apply erat_model_spec; [exact K1|exact K2|lia|exact Hle|exact Hs].
+  - apply erat_self_spec; [exact K1|exact K2|lia|exact Hle|exact Hs].
   - symmetry. apply primes_between_empty. exact Hgt.
 Qed.
 
